@@ -524,6 +524,8 @@ pub enum Call {
     SkipBcastCommit(bool),
     SetBatchAppend(bool),
     MaybeFreeInflight,
+    /// adversarial state tweak (pointwise tie only): `raft.raft_log.commit_to(k)` called directly
+    CommitTo(u64),
 }
 
 #[derive(Clone, Debug)]
@@ -1121,6 +1123,11 @@ impl Driver {
             Call::MaybeFreeInflight => {
                 cw.n(28);
                 catch(|| node.raft.maybe_free_inflight_buffers())
+            }
+            Call::CommitTo(k) => {
+                cw.n(29);
+                cw.n(*k);
+                catch(|| node.raft.raft_log.commit_to(*k))
             }
         };
         let draws: Vec<u64> = raft::verif_raft::take_draws().into_iter().map(|x| x as u64).collect();
